@@ -163,6 +163,10 @@ impl Root {
     // Mark any dependent node of the current node as dirty.
     fn mark_dependents_dirty(&self, current: NodeId) {
         let mut nodes_mut = self.nodes.borrow_mut();
+        // The node may have been disposed after it was written to (e.g. inside a batch).
+        if !nodes_mut.contains_key(current) {
+            return;
+        }
         let dependents = std::mem::take(&mut nodes_mut[current].dependents);
         for &dependent in &dependents {
             if let Some(dependent) = nodes_mut.get_mut(dependent) {
